@@ -217,6 +217,7 @@ def h_fixed_len(ln: int, shard=None) -> None:
         raise Violation(f"fixed_len :: fixed_len({ln}) gives {got}, expected {exp}")
     if len(r) != ln:
         raise Violation(f"fixed_len-len :: len(fixed_len({ln})) == {len(r)}")
+    _expect_eq(r, exp, f"fixed_len({ln})")
     if not _same(_observe(t), model):
         raise Violation("fixed_len-aliasing :: the original text was modified")
 
@@ -255,6 +256,7 @@ def h_chunk_ops(i: int, a: int, b: int, ln: int, shard=None) -> None:
     got = _observe(r)
     if not _same(got, exp):
         raise Violation(f"chunk-op :: op {op} gives {got}, expected {exp}")
+    _expect_eq(r, exp, f"chunk op {op}")
 
 
 def h_format(width: int, has_width: bool, align: int, fill_i: int, has_fill: bool, has_s: bool, shard=None) -> None:
